@@ -254,6 +254,51 @@ func (ch c07) Run(c *core.Ctx) {
 		_, run := judgeHistory(c, env, h, map[string]any{"history": histString(h)}, "C07")
 		account(h, run)
 	}
+	// long-lived connections: a statement and a portal that stay, and hundreds to thousands of
+	// define / use / close cycles of other names around them (and of the unnamed ones)
+	nlong := 2
+	if c.Tier == "thorough" {
+		nlong = 40
+	}
+	for i := 0; i < nlong; i++ {
+		idx = 3000000 + i
+		if !c.Begin(idx) || c.NViol() >= 10 {
+			continue
+		}
+		rng := core.NewRng(c.Seed, "C07long", c.Batch, i)
+		pfx := fmt.Sprintf("L%dx%d", c.Batch, i)
+		keepID := pfx + ".keep"
+		h := []xMsg{{K: "parse", Name: "a", Query: "P " + keepID, Prog: xProg(keepID, 3)},
+			{K: "bind", Portal: "a", Name: "a", BindID: 1, Params: [][]byte{[]byte(pfx + "-bind-keep"), []byte("1")}}}
+		// (no Sync until the end: whether portals outlive the end of a batch is left open by the properties,
+		// so everything stays within one batch)
+		cycles := core.Pick(rng, []int{110, 200, 300})
+		if c.Tier == "thorough" && i%4 == 3 {
+			cycles = core.Pick(rng, []int{1100, 2100}) // (lock-step cost grows with the square of the history)
+		}
+		for k := 0; k < cycles; k++ {
+			id := fmt.Sprintf("%s.c%d", pfx, k)
+			nm := core.Pick(rng, []string{"b", "b", ""})
+			switch rng.Intn(3) {
+			case 0: // statement cycle
+				h = append(h, xMsg{K: "parse", Name: nm, Query: "P " + id, Prog: xProg(id, 3+rng.Intn(2))}, xMsg{K: "closeS", Name: nm})
+			case 1: // portal cycle on the kept statement
+				h = append(h, xMsg{K: "bind", Portal: nm, Name: "a", BindID: 100 + k, Params: [][]byte{[]byte(fmt.Sprintf("%s-bind%d", pfx, k)), []byte("2")}}, xMsg{K: "closeP", Portal: nm})
+			default: // both, used before they go
+				h = append(h, xMsg{K: "parse", Name: nm, Query: "P " + id, Prog: xProg(id, 3)},
+					xMsg{K: "bind", Portal: nm, Name: nm, BindID: 100 + k, Params: [][]byte{[]byte(fmt.Sprintf("%s-bind%d", pfx, k)), []byte("3")}},
+					xMsg{K: "exec", Portal: nm}, xMsg{K: "closeP", Portal: nm}, xMsg{K: "closeS", Name: nm})
+			}
+			if k%16 == 15 {
+				h = append(h, xMsg{K: "flush"})
+			}
+		}
+		// what was defined at the start is still there
+		h = append(h, xMsg{K: "descS", Name: "a"}, xMsg{K: "exec", Portal: "a"}, xMsg{K: "bind", Portal: "b", Name: "a", BindID: 9, Params: [][]byte{[]byte(pfx + "-bind-late"), []byte("4")}}, xMsg{K: "exec", Portal: "b"}, xMsg{K: "sync"})
+		_, run := judgeHistory(c, env, h, map[string]any{"history": fmt.Sprintf("long history, %d cycles", cycles)}, "C07")
+		account(h, run)
+		c.Count("long_histories", 1)
+	}
 	// concurrent groups: same names on several connections of one server
 	for g := c.Batch; g < ngroups; g += nb {
 		idx = 2000000 + g
